@@ -45,7 +45,9 @@ Entries(p) ==
   \cup {EntryL(E, a, s1, v, FALSE, E, <<t[1]>>, t[2]) : t \in tcs}
   \cup {EntryL(E, b, s1, E, FALSE, sp, <<t[1]>>, t[2]) : t \in tcs}
   \cup {EntryL(sp, b, s, sp \o v \o sp, TRUE, sp, <<t[1]>>, t[2]) : s \in Seps(D), t \in (IF tcs = {} THEN {} ELSE {<<c1, cc>>})}
-  \cup (IF p.python THEN {EntryL(E, a, s1, v \o sp \o <<c1>> \o w, FALSE, E, E, E)} ELSE {})   \* comment chars stay in the value
+  \cup (IF p.python THEN {EntryL(E, a, s1, v \o sp \o <<c1>> \o w, FALSE, E, E, E),             \* comment chars stay in the value
+                          \* ... also behind a text in double quotes (the value then keeps the quotes: it does not END in one)
+                          EntryL(E, b, s1, <<QUOTE>> \o v \o <<QUOTE>> \o sp \o <<c1>> \o sp \o w, FALSE, E, E, E)} ELSE {})
 
 Conts(p) ==
   LET D == p.delim  cl == Class(D)  c1 == p.comment[1]  nbd == NonBlanksOf(D) IN
